@@ -31,7 +31,9 @@ def gen_cfg(rng):
 
 def gen_scenario(rng, style=None):
     c = gen_cfg(rng)
-    style = style or rng.choice(["mixed", "mixed", "burst", "resize", "drain", "drain"])
+    style = style or rng.choice(["mixed", "mixed", "burst", "resize", "drain", "drain", "retire_drain", "late_events"])
+    if style == "retire_drain":
+        return gen_retire_drain(rng)
     ops = [("settle",)]
     settles = 1
     nid = 0
@@ -39,7 +41,13 @@ def gen_scenario(rng, style=None):
     drained = False
     budget = rng.choice([10, 16, 24])
     wd, wf, wr, wk, wq, wa = {"mixed": (5, 4, 2, 1.5, 1, 0.7), "burst": (8, 3, 0.5, 0.3, 1.5, 0.5),
-                              "resize": (4, 3, 5, 3, 2, 0.3), "drain": (5, 4, 1.5, 1.5, 1, 0.5)}[style]
+                              "resize": (4, 3, 5, 3, 2, 0.3), "drain": (5, 4, 1.5, 1.5, 1, 0.5),
+                              "late_events": (4, 3, 1.5, 1, 1, 0.3)}[style]
+    # episodes in which a worker actor is stopping and its supervision event reaches the factory late
+    # (slow post_stop): A = user code stops an idle worker, jobs are dispatched meanwhile (worker-queueing
+    # routers); B = a shrink stops the worker and the pool grows again over the same slot meanwhile
+    we = {"late_events": 4.0, "resize": 1.0}.get(style, 0.5)
+    size = max(c["n0"], 0)
     if c["rate"]:
         wa = 2.0
     drain_at = rng.randint(2, budget) if style == "drain" or rng.random() < 0.25 else None
@@ -51,7 +59,34 @@ def gen_scenario(rng, style=None):
             settles += 1
             drained = True
             continue
-        r = rng.random() * (wd + wf + wr + wk + wq + wa)
+        r = rng.random() * (wd + wf + wr + wk + wq + wa + we)
+        if r >= wd + wf + wr + wk + wq + wa:
+            if drained or size == 0:
+                continue
+            w = rng.randrange(size)
+            newest0 = c["discard"] is not None and c["discard"] == ("newest", 0)
+            if c["router"] in ("rr", "custom", "kp") and not newest0 and rng.random() < 0.5:
+                ops += [("stopw", w), ("settle",)]
+                settles += 1
+                for _ in range(rng.choice([1, 2, 3])):
+                    for _ in range(rng.choice([1, 2, 3])):
+                        nid += 1
+                        ops.append(("d", nid, rng.choice([w, w, rng.randint(0, 7)]), 3, 1))
+                    ops.append(("settle",))
+                    settles += 1
+                ops += [("openstop", w), ("settle",)]
+                settles += 1
+            else:
+                a = rng.randint(max(1, w - 1), w) if w >= 1 else None
+                if a is None:
+                    continue
+                b = rng.randint(w + 1, min(w + 3, 5))
+                ops += [("gatestop", w), ("resize", a), ("settle",), ("resize", b), ("settle",),
+                        ("openstop", w), ("settle",)]
+                settles += 3
+                size = b
+                maxw = max(maxw, b)
+            continue
         if r < wd:
             n = rng.choice([1, 1, 2, 3, 4, 6]) if style != "burst" else rng.choice([2, 3, 5, 7])
             for _ in range(n):
@@ -79,6 +114,8 @@ def gen_scenario(rng, style=None):
         elif r < wd + wf + wr:
             n = rng.choice([0, 1, 1, 2, 2, 3, 4, 5])
             maxw = max(maxw, n)
+            if n:
+                size = n
             ops += [("resize", n), ("settle",)]
             settles += 1
         elif r < wd + wf + wr + wk:
@@ -95,6 +132,41 @@ def gen_scenario(rng, style=None):
         ops += [("finall",), ("settle",)]
     ops += [("q",), ("settle",)]
     return {"cfg": c, "ops": ops, "style": style}
+
+
+def gen_retire_drain(rng):
+    """a busy worker with queued accepted jobs is retired by a shrink, the other workers become idle,
+    then DrainRequests: everything accepted must still finish"""
+    c = gen_cfg(rng)
+    c["router"] = rng.choice(["rr", "custom", "kp"])
+    c["rate"] = None
+    c["n0"] = rng.choice([2, 2, 3, 4])
+    if c["discard"] is not None and c["discard"][1] < 2:
+        c["discard"] = (c["discard"][0], rng.choice([2, 3, 5]))
+    ops = [("settle",)]
+    nid = 0
+    for _ in range(rng.choice([1, 2])):
+        for _ in range(rng.choice([3, 5, 7])):
+            nid += 1
+            rk, prio, disc = (rng.choice([(0, 3, 1), (1, 3, 1), (2, 1, 1), (5, 4, 1)]) if c["router"] == "kp"
+                              else (rng.randint(0, 7), 3, 1))
+            ops.append(("d", nid, rk, prio, disc))
+        ops.append(("settle",))
+    new = rng.randint(1, c["n0"] - 1)
+    ops += [("resize", new), ("settle",)]
+    for _ in range(rng.choice([0, 2, 4, 8])):
+        ops += [("finw", rng.randrange(new)), ("settle",)]
+    if rng.random() < 0.3:
+        ops += [("q",), ("settle",)]
+    ops += [("drain",), ("settle",)]
+    if rng.random() < 0.5:
+        nid += 1
+        ops += [("d", nid, 0, 3, 1), ("settle",)]
+    settles = sum(1 for o in ops if o[0] == "settle")
+    for _ in range(min(nid + 2, 85 - settles)):
+        ops += [("finall",), ("settle",)]
+    ops += [("q",), ("settle",)]
+    return {"cfg": c, "ops": ops, "style": "retire_drain"}
 
 
 def scn_line(s):
@@ -147,11 +219,17 @@ def op_term(o):
         return f"FDispatch (mkJob {o[1]} {o[2]} {o[3]} {'true' if o[4] else 'false'})"
     return {"finw": lambda: f"FFinishW {o[1]}", "failw": lambda: f"FFailW {o[1]}", "kill": lambda: f"FKill {o[1]}",
             "resize": lambda: f"FResize {o[1]}", "drain": lambda: "FDrain", "adv": lambda: f"FAdv {o[1]}",
-            "settle": lambda: "FSettle", "q": lambda: "FQuery", "finall": lambda: "FFinishAll"}[k]()
+            "settle": lambda: "FSettle", "q": lambda: "FQuery", "finall": lambda: "FFinishAll",
+            "stopw": lambda: f"FStopW {o[1]}", "openstop": lambda: f"FOpenStop {o[1]}"}[k]()
+
+
+def model_ops(ops):
+    """`gatestop w` only makes the post_stop of slot w's current actor slow: no label of the model"""
+    return [o for o in ops if o[0] != "gatestop"]
 
 
 def ops_term(ops):
-    return "[" + "; ".join(op_term(o) for o in ops) + "]"
+    return "[" + "; ".join(op_term(o) for o in model_ops(ops)) + "]"
 
 
 def split_windows(ops):
@@ -170,7 +248,7 @@ def split_windows(ops):
 def model_windows(ops, per_op):
     """model output = start-up events + one event list per op; regroup per settle window"""
     wins, cur = [], list(per_op[0])
-    for o, evs in zip(ops, per_op[1:]):
+    for o, evs in zip(model_ops(ops), per_op[1:]):
         cur += evs
         if o[0] == "settle":
             wins.append(cur)
@@ -185,7 +263,8 @@ def ev_key(e):
 
 
 ORACLE_CLAUSES = ["discard_once", "queue_bound", "shed_identity", "reject_reported", "rate_window",
-                  "drain_refuses", "drain_finishes_then_stops", "hooks_order", "resize_converges"]
+                  "drain_refuses", "drain_finishes_then_stops", "hooks_order", "resize_converges",
+                  "accepted_jobs_finish"]
 
 
 def obs_term(s, impl_windows):
@@ -230,6 +309,8 @@ def factory_part(chk, build, factor):
                 scns.insert(0, json.load(open(os.path.join(corpus_dir, f))))
     for s in scns:
         s["ops"] = [tuple(o) for o in s["ops"]]
+        if isinstance(s["cfg"].get("discard"), list):
+            s["cfg"]["discard"] = tuple(s["cfg"]["discard"])
     # KeyPersistentRouting's hash (DefaultHasher) is data of the scenario: ask the real function
     keys = sorted({(o[2], o[3], o[4]) for s in scns if s["cfg"]["router"] == "kp" for o in s["ops"] if o[0] == "d"})
     if keys:
@@ -244,7 +325,7 @@ def factory_part(chk, build, factor):
         ct = cfg_term(s["cfg"], s["ops"])
         s["cfg_term"] = ct
         exprs.append(f"(factory_run {ct} {ops_term(s['ops'])}, check_C15_factory_clauses {ct} {obs_term(s, it)})")
-    model = coq_eval("C15f", IMPORTS, exprs)
+    model = coq_eval(f"C15fp{os.getpid()}", IMPORTS, exprs)
     distinct = set()
     for k, (s, mv) in enumerate(zip(scns, model)):
         mt = parse_term(mv)
@@ -255,6 +336,9 @@ def factory_part(chk, build, factor):
         chk.coverage["evaluations"] += 1
         chk.count("factory.style." + s.get("style", "corpus"))
         chk.count("factory.router." + s["cfg"]["router"])
+        for o in s["ops"]:
+            if o[0] in ("stopw", "gatestop", "openstop", "resize", "drain", "kill", "failw"):
+                chk.count("factory.op." + o[0])
         chk.count("factory.discard." + ("none" if s["cfg"]["discard"] is None else s["cfg"]["discard"][0]))
         flat = [e for w in iw for e in w]
         kinds = {}
